@@ -304,7 +304,8 @@ def mutant_patch(m):
     os.makedirs(f"{MUT}/patches", exist_ok=True)
     path = f"{MUT}/patches/{m['id']}.diff"
     if not os.path.exists(path):
-        src = open(f"{REPO}/src/{m['file']}").read().split('\n')
+        # the committed file, not the working tree (which other tools patch temporarily)
+        src = subprocess.run(["git", "-C", REPO, "show", f"HEAD:src/{m['file']}"], capture_output=True, text=True).stdout.split('\n')
         assert src[m['line'] - 1] == m['before'], m
         new = list(src)
         new[m['line'] - 1] = m['after']
